@@ -19,7 +19,8 @@ TFields == [s |-> A("string", FALSE), n |-> A("int", TRUE), b |-> A("bytes", FAL
 TAttrsOnly == [s |-> A("string", FALSE)]
 TRelsOnly  == [m |-> R(FALSE, "tt")]
 \* two attributes whose names differ by their case only
-TCase == [s |-> A("string", FALSE), S |-> A("string", FALSE)]
+\* ... and one whose name is a json tag with an option (for this library the whole tag is the name)
+TCase == [s |-> A("string", FALSE), S |-> A("string", FALSE)] @@ ("j,omitempty" :> A("string", FALSE))
 \* two to-many relationships (and nothing else)
 TManys == [m |-> R(FALSE, "tt"), k |-> R(FALSE, "tt")]
 NoDef == A("", FALSE)
@@ -39,7 +40,7 @@ Alphabet ==
             p \in { <<"s", V(1)>>, <<"s", V(2)>>, <<"n", V(0)>>, <<"n", V(1)>>, <<"n", V(2)>>, <<"n", NilV>>, <<"b", V(1)>>, <<"b", V(2)>>,
                     <<"q", V(1)>>, <<"q", NilV>>, <<"o", Ids(<<"a">>)>>, <<"o", Ids(<<>>)>>,
                     <<"m", Ids(<<"b", "a">>)>>, <<"m", Ids(<<"c", "b", "a">>)>>, <<"m", Ids(<<>>)>>,
-                    <<"m", Ids(<<"a", "b", "a">>)>>, <<"S", V(1)>>, <<"S", V(2)>>, <<"k", Ids(<<"b", "a", "d">>)>>, <<"k", Ids(<<"e">>)>> } }
+                    <<"m", Ids(<<"a", "b", "a">>)>>, <<"S", V(1)>>, <<"S", V(2)>>, <<"k", Ids(<<"b", "a", "d">>)>>, <<"k", Ids(<<"e">>)>>, <<"j,omitempty", V(1)>> } }
   \cup { Op("Set", h, "", f, NilV, "", NoDef, TRUE) : h \in H, f \in {"n", "q"} }   \* untyped nil
   \cup { Op("Set", h, "", "b", V(0), "", NoDef, TRUE) : h \in H }                  \* empty bytes given as a nil slice
   \cup { Op("SetID", h, "", "", V(0), id, NoDef, FALSE) : h \in H, id \in {"i1", "i2", ""} }
